@@ -345,6 +345,10 @@ class Tle:
             # lines containing only a COSPAR ID, which happens when an object is detected but the
             # JSpOc doesn't know what is the source yet.
             if line.startswith("1 "):
+                if any(x.startswith("1 ") for x in cache):
+                    # The previous entry was cut short (no second line): its lines
+                    # do not belong to this one
+                    cache = []
                 cache.append(line)
             elif line.startswith("2 "):
                 cache.append(line)
